@@ -111,6 +111,9 @@ type Scenario struct {
 	AllowParkedLib bool
 	// NoStateCache switches the happens-before fingerprint pruning off.
 	NoStateCache bool
+	// Fine turns the rewriter's statement-level points into schedule points (lock-misuse detection);
+	// it implies NoStateCache because the cache assumes data-race freedom.
+	Fine bool
 }
 
 func runOnce(sc *Scenario, prefix []int, keepLog bool) (*World, *Exec) {
@@ -125,6 +128,10 @@ func runOnceV(sc *Scenario, prefix []int, keepLog bool, visit func(s *vsync.Sche
 	s := vsync.NewSched(prefix, h)
 	s.KeepLog = keepLog
 	s.Visit = visit
+	s.FineMode = sc.Fine
+	if sc.Fine {
+		s.Visit = nil
+	}
 	w := &World{S: s, Data: map[string]interface{}{}}
 	if sc.Invariant != nil {
 		s.Invariant = func() error { return sc.Invariant(w) }
@@ -362,7 +369,7 @@ func Explore(sc *Scenario, tierIdx int, deadline time.Time) *Result {
 		}
 		bud := budget{pb: min(b, maxPB), dev: min(b, maxDev), fb: fb}
 		e := &explorer{sc: sc, res: res, bud: bud, deadline: deadline}
-		if !sc.NoStateCache && os.Getenv("VERIF_NOCACHE") == "" {
+		if !sc.NoStateCache && !sc.Fine && os.Getenv("VERIF_NOCACHE") == "" {
 			e.visited = map[uint64]budget{}
 		}
 		e.explore(nil, 0, 0, 0)
@@ -491,7 +498,9 @@ func RunScenarios(r *ev.Run, scs []*Scenario, perScenario time.Duration) (nondet
 		if res.HorizonHits > 0 {
 			p.Note = fmt.Sprintf("%d executions hit the step horizon", res.HorizonHits)
 		}
-		if !sc.NoStateCache {
+		if sc.Fine {
+			p.Note += " fine mode: statement-level schedule points inside the library code, no state cache"
+		} else if !sc.NoStateCache {
 			p.Note += fmt.Sprintf(" reduction: happens-before-fingerprint state cache, %d distinct states at the last bound, %d executions cut short at an already explored state", res.StatesSeen, res.Pruned)
 		}
 		if res.Nondet != "" {
@@ -521,6 +530,10 @@ func Main(r *ev.Run, scs []*Scenario) {
 		}
 		os.Exit(Replay(scs, v))
 	}
+	if r.Shard == "count" {
+		fmt.Printf("COUNT %d\n", len(scs))
+		return
+	}
 	if r.Shard != "" {
 		runtime.GOMAXPROCS(1)
 		var i int
@@ -542,6 +555,25 @@ func Main(r *ev.Run, scs []*Scenario) {
 		r.Finish0(2)
 	}
 	r.Finish()
+}
+
+// DriveBin asks the engine-S binary how many scenarios it has and drives it.
+func DriveBin(r *ev.Run, bin string) (nondet string) {
+	if bin == "" {
+		return "engine-S companion binary not built (VERIF_SCHED_BIN unset)"
+	}
+	out, err := exec.Command(bin, "--tier", r.Tier, "--shard", "count").Output()
+	if err != nil {
+		return "engine-S companion: " + err.Error()
+	}
+	n := 0
+	for _, l := range strings.Split(string(out), "\n") {
+		fmt.Sscanf(l, "COUNT %d", &n)
+	}
+	if n == 0 {
+		return "engine-S companion reports no scenarios"
+	}
+	return Drive(r, bin, n)
 }
 
 // Drive runs one worker process of bin per scenario (at most 16 at a time, handed out dynamically)
